@@ -25,18 +25,62 @@ func c20Desc(pts [][2]float64, stride int, thr float64) map[string]any {
 
 // c20Check judges one simplification.
 func c20Check(c *fw.Ctx, pts [][2]float64, stride int, thr float64, class string) {
+	if c.R.Chance(1, 64) {
+		xyRefusedCalls(c)
+	}
 	r := c.R
 	n := len(pts)
-	c.SetInput(c20Desc(pts, stride, thr))
 	flat := make([]float64, 0, n*stride)
-	flat2 := make([]float64, 0, n*2)
-	maxAbs := 1.0
 	for _, p := range pts {
 		flat = append(flat, p[0], p[1])
-		flat2 = append(flat2, p[0], p[1])
 		for k := 2; k < stride; k++ {
 			flat = append(flat, gen.Float(r, gen.AnyClass(r)))
 		}
+	}
+	negZeros(r, flat, stride)
+	if !c20CheckFlat(c, pts, flat, stride, thr, class, "") || n < 2 || !r.Chance(1, 3) {
+		return
+	}
+	// the caller edits its coordinate array in place - the same points in another
+	// order: reversed, or rotated by one (same address, same length, same multiset
+	// of ordinates, another line) - and simplifies again
+	if c.Guard("panic", func() { xy.SimplifyFlatCoords(flat, thr, stride) }) {
+		return
+	}
+	pts2 := make([][2]float64, n)
+	how := "reversed in place"
+	if r.Bool() {
+		for i := range pts {
+			pts2[n-1-i] = pts[i]
+		}
+		for i, j := 0, n-1; i < j; i, j = i+1, j-1 {
+			for k := 0; k < stride; k++ {
+				flat[i*stride+k], flat[j*stride+k] = flat[j*stride+k], flat[i*stride+k]
+			}
+		}
+	} else {
+		how = "rotated by one point in place"
+		first := append([]float64{}, flat[:stride]...)
+		copy(flat, flat[stride:])
+		copy(flat[(n-1)*stride:], first)
+		copy(pts2, pts[1:])
+		pts2[n-1] = pts[0]
+	}
+	c.Count("same_array_edited_in_place_and_simplified_again")
+	c20CheckFlat(c, pts2, flat, stride, thr, class, how)
+}
+
+func c20CheckFlat(c *fw.Ctx, pts [][2]float64, flat []float64, stride int, thr float64, class, history string) bool {
+	n := len(pts)
+	in := c20Desc(pts, stride, thr)
+	if history != "" {
+		in["history"] = "the coordinate array of the previous call, " + history
+	}
+	c.SetInput(in)
+	flat2 := make([]float64, 0, n*2)
+	maxAbs := 1.0
+	for _, p := range pts {
+		flat2 = append(flat2, p[0], p[1])
 		maxAbs = math.Max(maxAbs, math.Max(math.Abs(p[0]), math.Abs(p[1])))
 	}
 	before := append([]float64{}, flat...)
@@ -45,46 +89,50 @@ func c20Check(c *fw.Ctx, pts [][2]float64, stride int, thr float64, class string
 		idxs = xy.SimplifyFlatCoords(flat, thr, stride)
 		idxs2 = xy.SimplifyFlatCoords(flat2, thr, 2)
 	}) {
-		return
+		return false
 	}
 	c.Eval(2)
 	hi := idxs
-	if !holdAndRecheck(c, "c20-indexes", "SimplifyFlatCoords indexes", func() string { return fmt.Sprint(hi) }) {
-		return
+	if !holdRecheckScribble(c, "c20-indexes", "SimplifyFlatCoords indexes", func() string { return fmt.Sprint(hi) }, func() {
+		for i := range hi[:cap(hi)] {
+			hi[:cap(hi)][i] = -77
+		}
+	}) {
+		return false
 	}
 	c.Count("class_" + class)
 	for i := range before {
 		if math.Float64bits(before[i]) != math.Float64bits(flat[i]) {
 			c.Fail("input-modified", "SimplifyFlatCoords modified flatCoords[%d]", i)
-			return
+			return false
 		}
 	}
 	// shape of the index list
 	if n < 3 {
 		if len(idxs) != n {
 			c.Fail("bad-indexes", "%d points: got indexes %v, want all of them", n, idxs)
-			return
+			return false
 		}
 	}
 	if n >= 1 {
 		if len(idxs) == 0 || idxs[0] != 0 || idxs[len(idxs)-1] != n-1 {
 			c.Fail("bad-indexes", "indexes %v do not start with 0 and end with %d", idxs, n-1)
-			return
+			return false
 		}
 	} else if len(idxs) != 0 {
 		c.Fail("bad-indexes", "0 points but indexes %v", idxs)
-		return
+		return false
 	}
 	for i := range idxs {
 		if idxs[i] < 0 || idxs[i] >= n || (i > 0 && idxs[i] <= idxs[i-1]) {
 			c.Fail("bad-indexes", "indexes not strictly increasing within 0..%d: %v", n-1, idxs)
-			return
+			return false
 		}
 	}
 	// extra ordinates must not matter
 	if !intsEq(idxs, idxs2) {
 		c.Fail("extra-ordinates", "stride %d result %v differs from the XY-only result %v", stride, idxs, idxs2)
-		return
+		return false
 	}
 	// every omitted point within the threshold of the segment between its retained neighbours
 	// slack: tau*(1+2^-50) + 2^-46*max(1,max|ordinate|) covers the double evaluation of the squared distance
@@ -104,14 +152,14 @@ func c20Check(c *fw.Ctx, pts [][2]float64, stride int, thr float64, class string
 			if thr == 0 {
 				if d2.Sign() != 0 {
 					c.Fail("dropped-off-segment", "threshold 0: point %d %v was dropped but lies %g off the segment between retained points %d and %d", i, pts[i], math.Sqrt(exact.F64(d2)), l, rr)
-					return
+					return false
 				}
 				c.Count("dropped_exactly_on_segment")
 				continue
 			}
 			if d2.Cmp(bound2) > 0 {
 				c.Fail("dropped-beyond-threshold", "point %d %v was dropped but lies %g from the segment between retained points %d %v and %d %v; threshold %g", i, pts[i], math.Sqrt(exact.F64(d2)), l, pts[l], rr, pts[rr], thr)
-				return
+				return false
 			}
 			if d2.Cmp(thr2) == 0 {
 				c.Count("distance_equals_threshold")
@@ -128,15 +176,16 @@ func c20Check(c *fw.Ctx, pts [][2]float64, stride int, thr float64, class string
 		}
 		var again []int
 		if c.Guard("panic", func() { again = xy.SimplifyFlatCoords(kept, thr, stride) }) {
-			return
+			return false
 		}
 		c.Eval(1)
 		if len(again) != len(idxs) {
 			c.Fail("not-idempotent", "simplifying the simplified line (%d points) again with the same threshold keeps only %d: %v", len(idxs), len(again), again)
-			return
+			return false
 		}
 	}
 	c.Distinct(fmt.Sprintf("%s/%d/%d/%d", class, n, len(idxs), stride))
+	return true
 }
 
 func intsEq(a, b []int) bool {
